@@ -351,7 +351,7 @@ def gen_events(rng, n_sources, maxlen=5, step=(0, 10, 10, 20, 50), values=range(
         r = rng.random()
         t += rng.choice(step)
         if r < p_err:
-            evs.append((t, k, ("E", UserError(rng.choice([11, 12])))))
+            evs.append((t, k, ("E", k2.make_error(rng.choice([11, 12])))))
         elif r < 1 - p_none:
             evs.append((t, k, ("C",)))
         if rng.random() < nonconforming:
